@@ -728,9 +728,9 @@ def run(tier, seed):
     seqs = [gen_sequence(ck.rng, keys, vals, eqkey) for _ in range(nseq)]
     sb, sl = [], []
     for start, ops, probe in seqs:
-        body = f"$m: {lit_text(start)}; "
+        body = f"$m: {lit_text(start)}; s0: ks($m); "
         line = f"value ops now {enc(lit_tree(start))}"
-        for op in ops:
+        for step, op in enumerate(ops, 1):
             if op[0] == "set":
                 body += f"$m: map.set($m, {op[1][0]}, {op[2][0]}); "
                 line += f" set {enc(op[1][1])} {enc(op[2][1])}"
@@ -740,12 +740,34 @@ def run(tier, seed):
             else:
                 body += f"$m: map-remove($m, {op[1][0]}); "
                 line += f" remove {enc(op[1][1])}"
+            body += f"s{step}: ks($m); "
         body += (f"v: inspect($m); k: inspect(map-keys($m)); w: inspect(map-values($m)); e: ks($m); n: length($m); "
                  f"g: inspect(map-get($m, {probe[0]})); h: map-has-key($m, {probe[0]})")
         sb.append(body)
         sl.append(line)
     sres = run_batched(pool, PRELUDE, sb, size=100)
     souts = driver(sl)
+    # DIRECT: every single operation keeps the order of the keys it leaves (Lean predicate `orderKept`
+    # on grass's own key sequences before / after the operation)
+    order_lines, order_ix = [], []
+    hx = lambda t: ",".join(hexs(x) for x in t[1:].split("|")[:-1]) or "-"
+    for idx, (start, ops, probe) in enumerate(seqs):
+        r = sres[idx]
+        if not isinstance(r, dict):
+            continue
+        for step, op in enumerate(ops, 1):
+            b, a = r.get(f"s{step - 1}"), r.get(f"s{step}")
+            if b is None or a is None:
+                continue
+            order_lines.append(f"value orderlaw {'remove' if op[0] == 'remove' else 'grow'} {hx(b)} {hx(a)}")
+            order_ix.append((idx, step, op[0], b, a))
+    for (idx, step, kind, b, a), verdict in zip(order_ix, driver(order_lines)):
+        ck.cov["evaluations"] += 1
+        if verdict != "ok holds":
+            ck.hist("orderlaw-fails:" + kind)
+            failing.append((sb[idx], {"sequence": sb[idx], "step": step, "operation": kind, "keys_before": b,
+                                      "keys_after": a, "verdict": verdict, "expected_by_property":
+                                      "merging or removing never disturbs the order of the remaining keys"}, []))
     for idx, ((start, ops, probe), mo) in enumerate(zip(seqs, souts)):
         r = sres[idx]
         if not mo.startswith("ok "):
